@@ -80,42 +80,43 @@ def run(ctx):
         M.check_none_tests(ctx, res, "HyMMSBMSampler.__init__", params=("seed",))
     with res.guard("M.check_none_testsctx, res, HyMMSBM.__init__, paramsseed,"):
         M.check_none_tests(ctx, res, "HyMMSBM.__init__", params=("seed",))
-    # the wrapped model receives the seed
-    ctor = [n for n in ast.walk(init.node) if isinstance(n, ast.Call) and isinstance(n.func, ast.Name) and n.func.id == "HyMMSBM"]
-    if not ctor:
-        raise AnalysisError("HyMMSBMSampler.__init__: construction of the wrapped model not found")
-    for c in ctor:
-        kw = {k.arg: k.value for k in c.keywords}
-        res.check("seed" in kw and _seed_expr_ok(kw["seed"]), "R-SEEDED", init.short, norm(c), "model-seed", "the wrapped HyMMSBM is built without the sampler's seed (or with an expression that can lose it): its generator is seeded from OS entropy", loc(init, c))
-    # draws reachable from sample()
-    entry = ctx.require("HyMMSBMSampler.sample")
-    clo = R.closure(ctx, entry)
-    n_draws = 0
-    for g in clo:
-        for d in R.draws_in(ctx, g):
-            n_draws += 1
-            if d.source.startswith("global:"):
-                res.violation("R-GLOBAL", g.short, norm(d.node), d.source, "a draw from a global module state is reachable from sample(): two samplers with the same seed diverge", d.where())
-            else:
-                recv = d.source.split(":", 1)[1]
-                ok = recv in ("self._rng", "rng")
-                res.check(ok, "R-SEEDED", g.short, norm(d.node), recv, f"draw from `{recv}`, which is not the seeded generator of the sampler / model", d.where())
-    if n_draws < 5:
-        raise AnalysisError(f"only {n_draws} draw sites found in the closure of sample() (expected the MCMC, sequence and weight draws)")
-    res.ok("R-GLOBAL", entry.short, f"{n_draws} draw sites in {len(clo)} reachable functions", "scan", loc(entry, entry.node))
-    # R-FALLBACK
-    fallback_fns = {}
-    for fi in ctx.prog.functions.values():
-        if fi.parent is None and any(isinstance(n, ast.IfExp) and "default_rng" in norm(n) for n in ast.walk(fi.node)) and "rng" in [a.arg for a in fi.params]:
-            fallback_fns[fi.qualname] = fi
-    for cf in ctx.interp.callfacts:
-        if cf.callee.qualname in fallback_fns and cf.caller.qualname in {g.qualname for g in clo}:
-            arg = next((k.value for k in cf.node.keywords if k.arg == "rng"), None)
-            if arg is None:
-                idx = [a.arg for a in cf.callee.params].index("rng")
-                arg = cf.node.args[idx] if idx < len(cf.node.args) else None
-            ok = arg is not None and norm(arg) in ("self._rng", "rng")
-            res.check(ok, "R-FALLBACK", cf.caller.short, norm(cf.node), cf.callee.short, f"{cf.callee.short} is called without a generator: it falls back to an unseeded default_rng()", loc(cf.caller, cf.node))
+    with res.guard("seeding of the wrapped model; draws reachable from sample(); generator fallbacks"):
+        # the wrapped model receives the seed
+        ctor = [n for n in ast.walk(init.node) if isinstance(n, ast.Call) and isinstance(n.func, ast.Name) and n.func.id == "HyMMSBM"]
+        if not ctor:
+            raise AnalysisError("HyMMSBMSampler.__init__: construction of the wrapped model not found")
+        for c in ctor:
+            kw = {k.arg: k.value for k in c.keywords}
+            res.check("seed" in kw and _seed_expr_ok(kw["seed"]), "R-SEEDED", init.short, norm(c), "model-seed", "the wrapped HyMMSBM is built without the sampler's seed (or with an expression that can lose it): its generator is seeded from OS entropy", loc(init, c))
+        # draws reachable from sample()
+        entry = ctx.require("HyMMSBMSampler.sample")
+        clo = R.closure(ctx, entry)
+        n_draws = 0
+        for g in clo:
+            for d in R.draws_in(ctx, g):
+                n_draws += 1
+                if d.source.startswith("global:"):
+                    res.violation("R-GLOBAL", g.short, norm(d.node), d.source, "a draw from a global module state is reachable from sample(): two samplers with the same seed diverge", d.where())
+                else:
+                    recv = d.source.split(":", 1)[1]
+                    ok = recv in ("self._rng", "rng")
+                    res.check(ok, "R-SEEDED", g.short, norm(d.node), recv, f"draw from `{recv}`, which is not the seeded generator of the sampler / model", d.where())
+        if n_draws < 5:
+            raise AnalysisError(f"only {n_draws} draw sites found in the closure of sample() (expected the MCMC, sequence and weight draws)")
+        res.ok("R-GLOBAL", entry.short, f"{n_draws} draw sites in {len(clo)} reachable functions", "scan", loc(entry, entry.node))
+        # R-FALLBACK
+        fallback_fns = {}
+        for fi in ctx.prog.functions.values():
+            if fi.parent is None and any(isinstance(n, ast.IfExp) and "default_rng" in norm(n) for n in ast.walk(fi.node)) and "rng" in [a.arg for a in fi.params]:
+                fallback_fns[fi.qualname] = fi
+        for cf in ctx.interp.callfacts:
+            if cf.callee.qualname in fallback_fns and cf.caller.qualname in {g.qualname for g in clo}:
+                arg = next((k.value for k in cf.node.keywords if k.arg == "rng"), None)
+                if arg is None:
+                    idx = [a.arg for a in cf.callee.params].index("rng")
+                    arg = cf.node.args[idx] if idx < len(cf.node.args) else None
+                ok = arg is not None and norm(arg) in ("self._rng", "rng")
+                res.check(ok, "R-FALLBACK", cf.caller.short, norm(cf.node), cf.callee.short, f"{cf.callee.short} is called without a generator: it falls back to an unseeded default_rng()", loc(cf.caller, cf.node))
     # ---- Y-WEIGHTED
     with res.guard("Y-WEIGHTED"):
         v = ctx.view("HyMMSBMSampler.sample")
